@@ -356,3 +356,53 @@ func (r *Report) writeEvidence(n map[string]int, extraCov map[string]interface{}
 	os.MkdirAll(filepath.Join(r.verifDir, "evidence"), 0o755)
 	os.WriteFile(filepath.Join(r.verifDir, "evidence", r.Prop+".json"), append(b, '\n'), 0o644)
 }
+
+// Borrow runs the rules of another property on the same program and files the obligations `pick` selects under this
+// property, renamed.  Used where a structural clause decided for one property is just as much a necessary condition
+// of another (IsForNet's field agreement is C01's membership clause and C02's "belongs to the network"; the Tx hash
+// memo is C16's and the transaction id C10 matches and inserts).  Violations that the lender's known-findings list
+// are not imported (they are reported there).
+func (r *Report) Borrow(from string, pick func(o *Ob) (rule string, ok bool)) int {
+	f, ok := registry[from]
+	if !ok {
+		r.Unresolved(r.Prop+".borrow", "rules of "+from)
+		return 0
+	}
+	sr := NewReport(from, r.Tier, r.verifDir, r.P)
+	func() {
+		defer func() {
+			if e := recover(); e != nil {
+				sr.Obs = append(sr.Obs, &Ob{Rule: from + ".panic", Func: "-", Construct: fmt.Sprint(e), Status: "violated", How: "kind=panic"})
+			}
+		}()
+		f(r.P, sr)
+	}()
+	n := 0
+	for _, o := range sr.Obs {
+		rule, ok := pick(o)
+		if !ok {
+			continue
+		}
+		if o.Status == "violated" {
+			listed := false
+			for _, k := range sr.known {
+				if k.Status == "known" && k.Rule == o.Rule && k.Function == o.Func && k.Construct == o.Construct {
+					listed = true
+				}
+			}
+			if listed {
+				continue
+			}
+		}
+		c := *o
+		c.Rule = rule
+		c.How = "(" + o.Rule + ") " + o.How
+		r.Obs = append(r.Obs, &c)
+		r.counts[rule]++
+		if c.Func != "" && c.Func != "-" {
+			r.funcs[c.Func] = true
+		}
+		n++
+	}
+	return n
+}
